@@ -256,6 +256,9 @@ var specWords = map[string]string{
 	"old": "spec_old", "entry": "spec_entry", "has": "spec_has", "fresh": "spec_fresh", "eq": "spec_eq", "existed": "spec_existed", "elem": "spec_elem",
 }
 
+// desugarNoWitness: read `exists m T [W] :: P` as plain `exists m T :: P` (set while a clause is evaluated for a CALLER).
+var desugarNoWitness = false
+
 // desugar rewrites the clause language (forall/exists/==>/<==>/old/has/...) into type-checkable Go.
 func desugar(s string) (string, error) {
 	s = strings.TrimSpace(s)
@@ -273,6 +276,20 @@ func desugar(s string) (string, error) {
 			fn := "spec_all"
 			if q == "exists" {
 				fn = "spec_any"
+			}
+			// `exists m T [W] :: P`: a WITNESS for the prover. Logically (exists m :: P) <=> (P[m:=W] || exists m :: P), so
+			// the disjunct is harmless in any polarity; it spares the solver the instantiation. Callers of the contract
+			// (who cannot see the callee's locals and loop ghosts W may mention) read the clause without it.
+			if q == "exists" {
+				if lb := strings.Index(binders, "["); lb > 0 && strings.HasSuffix(binders, "]") {
+					wit := strings.TrimSpace(binders[lb+1 : len(binders)-1])
+					binders = strings.TrimSpace(binders[:lb])
+					parts := strings.Fields(binders)
+					if len(parts) >= 2 && !strings.Contains(binders, ",") && !desugarNoWitness {
+						inst := replaceIdent(body, parts[0], "("+wit+")")
+						return fmt.Sprintf("(%s || spec_any(func(%s) bool { return %s }))", inst, binders, body), nil
+					}
+				}
 			}
 			bs := splitTopLevel(binders, ',')
 			out := body
